@@ -26,6 +26,8 @@ def gene_versions(r, case, n=3):
             g["start"] += d; g["stop"] += d + v
             if v == n - 1:
                 gs.append({"name": "%s_new%d" % (ch, v), "chrom": ch, "start": g["stop"] + 40, "stop": g["stop"] + 90, "strand": "+"})
+        if v == 1:
+            gs.reverse()        # the same genes listed in the opposite order (matters only to code that trusts row order)
         out.append(gs)
     return out
 
@@ -71,6 +73,9 @@ def enrich_case(case, r):
         g = gs[len(gs) // 2]
         mine = [t for t in case["tes"] if t["chrom"] == ch]
         groups = sorted(set((t["order"], t["superfam"]) for t in mine))
+        if not any(x is not g and x["chrom"] == ch and x["start"] == g["start"] for x in case["genes"]):
+            # a second gene model with the same start: their relative order is decided by the order of the file's rows only
+            case["genes"].append({"name": "%s_gtwin" % ch, "chrom": ch, "start": g["start"], "stop": g["stop"] + 37, "strand": "-"})
         for i, m in enumerate(marks):
             o, sf = groups[i % len(groups)]
             a = g["stop"] + m
